@@ -310,6 +310,8 @@ func propC02(c *Check) {
 	c.Rule("R2", "exactly once, +1: every success path of a voted handler passes exactly one SetProposalSeq(VerifyProposal#0 + 1) (not in a loop) and one UpdateRandao(req)")
 	c.Rule("R3", "randao and accepted-flag writers; in VerifyProposal/VerifyNonProposal the Relayer.Set that flips ProposerAccepted is dominated by every guard")
 	c.Rule("R4", "no process-local state: nothing reachable from a tx handler, block hook or ante handler stores to a package-level variable")
+	c.Rule("R5", "a vote is bound to its payload: the sign document of every voted message covers each field its handler acts on (C01/R4) — otherwise votes collected for one payload are accepted for another")
+	c.Depend("R5", "C01", propC01, map[string]bool{"R4": true}, "a field left out of the sign document can be changed after the votes were collected")
 
 	voted, nonVoted := p.votedHandlers()
 	votedSet := map[*ssa.Function]bool{}
